@@ -263,6 +263,12 @@ def gen_args(fn, rng):
         goal = rf.poe_space(c["home"], c["S"], c["th"])
         start = c["th"] + np.array([rng.uniform(-0.1, 0.1) for _ in range(n)])
         lst = c["B"] if fn == "IKinBody" else c["S"]
+        # tolerances: the usual tight pair, or a coarse pair (the docstring's 0.01 rad / 0.001 m and its mirror) with a start a
+        # few tolerances away - the regime where WHICH error is compared with WHICH tolerance decides when the solver stops
+        if rng.random() < 0.5:
+            eomg, ev = rng.choice([(1e-2, 1e-3), (1e-3, 1e-2), (5e-3, 5e-4)])
+            start = c["th"] + np.array([rng.uniform(-0.3, 0.3) for _ in range(n)])
+            return cls + "|coarse", [lst, c["home"], goal, start, eomg, ev]
         return cls, [lst, c["home"], goal, start, 1e-4, 1e-5]
     if fn == "InverseDynamics":
         return cls, [c["th"], c["dth"], c["ddth"], c["g"], c["F"], c["M"], c["G"], c["S"]]
@@ -361,8 +367,8 @@ def diff_job(job):
                 T = rf.poe_space(home, lst, th_p) if fn == "IKinSpace" else home @ rf.poe_space(np.eye(4), lst, th_p)
                 D = rf.se3_log(rf.trans_inv(T) @ goal)
                 Vv = D if fn == "IKinBody" else rf.adjoint(T) @ D
-                ev.append((fn + ": success meets eomg", cls, float(np.linalg.norm(Vv[:3])), 1e-4 * (1 + 1e-6), case))
-                ev.append((fn + ": success meets ev", cls, float(np.linalg.norm(Vv[3:])), 1e-5 * (1 + 1e-6) + 1e-9, case))
+                ev.append((fn + ": success meets eomg", cls, float(np.linalg.norm(Vv[:3])), args[4] * (1 + 1e-6), case))
+                ev.append((fn + ": success meets ev", cls, float(np.linalg.norm(Vv[3:])), args[5] * (1 + 1e-6) + 1e-9, case))
             if ok_p and ok_r:
                 ev.append((fn + ": both converge to the same solution", cls, relerr(th_p, th_r), 1e-9, case))
         else:
@@ -384,8 +390,10 @@ def run(ctx):
     per = ctx.pick(24, 2000)
     jobs = []
     for fn in names:
-        slow = fn in ("SimulateControl", "ForwardDynamicsTrajectory", "InverseDynamicsTrajectory", "ComputedTorque", "IKinBody", "IKinSpace")
+        slow = fn in ("SimulateControl", "ForwardDynamicsTrajectory", "InverseDynamicsTrajectory", "ComputedTorque")
         cnt = max(6, per // 3) if slow else per
+        if fn in ("IKinBody", "IKinSpace"):
+            cnt = per * 12          # iterative: which iterate a solve stops at depends on the start, so many starts (each is cheap)
         for k in range(0, cnt, max(1, cnt // 4)):
             jobs.append((fn, ctx.seed * 7919 + hash(fn) % 100000 + k, max(1, cnt // 4)))
     with ctx.timed("differential"):
